@@ -449,7 +449,9 @@ def c06_8(ctx):
             cur = cur.orelse[0]
         else:
             r = next((s for s in cur.orelse if isinstance(s, ast.Return)), None)
-            inv['GLOBAL'] = r.value.value if r is not None and isinstance(r.value, ast.Constant) else None
+            # "otherwise": the GLOBAL kind, unless the chain already named it (then what follows is never reached: three kinds exist)
+            if 'GLOBAL' not in inv:
+                inv['GLOBAL'] = r.value.value if r is not None and isinstance(r.value, ast.Constant) else None
             cur = None
     ctx.check(inv == {'LOCAL': '.', 'FILE': '_', 'GLOBAL': ''}, 'kinds:kind->prefix', lp.site(), "label_prefix is the inverse table", str(inv))
 
